@@ -147,7 +147,143 @@ func (fa *FA) FactsAt(in ssa.Instruction, extra ...*Lin) []Fact {
 		facts = append(facts, fa.condFacts(c)...)
 	}
 	facts = append(facts, fa.loopFacts(in)...)
+	facts = append(facts, fa.calleeFacts(condsAtInstr(in))...)
 	return fa.closeFacts(facts, extra...)
+}
+
+// calleeFacts: for every module call whose error result is known nil here, the
+// guarantees of its success returns (computed from the callee's own body) about
+// its integer results: constant lower bounds and `<= len(slice parameter)`.
+func (fa *FA) calleeFacts(conds []Cond) []Fact {
+	var out []Fact
+	seen := map[*ssa.Call]bool{}
+	for _, c := range conds {
+		nc := normCond(c)
+		b, ok := nc.V.(*ssa.BinOp)
+		if !ok {
+			continue
+		}
+		for _, e := range []ssa.Value{b.X, b.Y} {
+			if nilTestOf(c, e) != 1 {
+				continue
+			}
+			var call *ssa.Call
+			if ex, ok := e.(*ssa.Extract); ok {
+				call, _ = ex.Tuple.(*ssa.Call)
+			} else {
+				call, _ = e.(*ssa.Call)
+			}
+			if call == nil || seen[call] {
+				continue
+			}
+			seen[call] = true
+			g := staticCallee(&call.Call)
+			if g == nil || !fa.P.InModule(g) || g.Blocks == nil {
+				continue
+			}
+			for _, sf := range fa.P.retSummary(g) {
+				res := resultN(call, sf.result)
+				if res == nil {
+					continue
+				}
+				rl := fa.Lin(res)
+				switch sf.kind {
+				case "ge-const":
+					out = append(out, le(linConst(sf.c), rl, fmt.Sprintf("%s success guarantee: result#%d >= %d", fnName(g), sf.result, sf.c)))
+				case "le-len-param":
+					if sf.param < len(call.Call.Args) {
+						out = append(out, le(rl, fa.linSym(lenOf(fa.Sym(call.Call.Args[sf.param])), 0).Add(linConst(sf.c)),
+							fmt.Sprintf("%s success guarantee: result#%d <= len(arg%d)%+d", fnName(g), sf.result, sf.param, sf.c)))
+					}
+				}
+			}
+		}
+	}
+	return out
+}
+
+type retFact struct {
+	kind   string
+	result int
+	param  int
+	c      int64
+}
+
+var retSummaryCache = map[*ssa.Function][]retFact{}
+var retSummaryBusy = map[*ssa.Function]bool{}
+
+// retSummary computes guarantees on the integer results of g's success returns
+// (returns whose error result is the nil constant; all returns if g has no error result).
+func (p *Prog) retSummary(g *ssa.Function) []retFact {
+	if s, ok := retSummaryCache[g]; ok {
+		return s
+	}
+	if retSummaryBusy[g] {
+		return nil
+	}
+	retSummaryBusy[g] = true
+	defer delete(retSummaryBusy, g)
+	var out []retFact
+	fa := p.FA(g)
+	res := g.Signature.Results()
+	errIdx := -1
+	for i := 0; i < res.Len(); i++ {
+		if isErrorType(res.At(i).Type()) {
+			errIdx = i
+		}
+	}
+	var succ []*ssa.Return
+	for _, r := range returnsOf(g) {
+		if len(r.Results) != res.Len() {
+			continue
+		}
+		if errIdx >= 0 && !isNilConst(r.Results[errIdx]) {
+			continue
+		}
+		succ = append(succ, r)
+	}
+	if len(succ) == 0 {
+		retSummaryCache[g] = nil
+		return nil
+	}
+	for i := 0; i < res.Len(); i++ {
+		if _, _, ok := intBits(res.At(i).Type()); !ok {
+			continue
+		}
+		holds := func(goal func(l *Lin) *Lin) bool {
+			for _, r := range succ {
+				for _, alt := range phiAlternatives(r.Results[i], 3) {
+					l := fa.Lin(alt)
+					gl := goal(l)
+					if !Entails(fa.FactsAt(r, gl), gl) {
+						return false
+					}
+				}
+			}
+			return true
+		}
+		best := int64(-1)
+		for _, c := range []int64{0, 1, 2, 4, 8} {
+			cc := c
+			if holds(func(l *Lin) *Lin { return linConst(cc).Sub(l) }) {
+				best = cc
+			}
+		}
+		if best >= 0 {
+			out = append(out, retFact{"ge-const", i, 0, best})
+		}
+		for j, prm := range g.Params {
+			if _, ok := prm.Type().Underlying().(*types.Slice); !ok {
+				continue
+			}
+			pl := fa.linSym(lenOf(fa.Sym(prm)), 0)
+			if holds(func(l *Lin) *Lin { return l.Sub(pl) }) {
+				out = append(out, retFact{"le-len-param", i, j, 0})
+			}
+		}
+	}
+	retSummaryCache[g] = out
+	return out
 }
 
 // closeFacts adds atom range facts (to a fixed depth) for all atoms involved.
